@@ -41,6 +41,15 @@ trait Sut: Clone {
     /// replace the structure by `tmp`, where `tmp` is an instance with a DIFFERENT configuration and some content on
     /// which `tmp.clone_from(&structure)` was called: Clone::clone_from must yield the same copy as clone()
     fn reclone_via_clone_from(&mut self);
+    /// reads (obs) leave the structure's future unchanged; false for the T-digest, whose reads merge the backlog and thereby
+    /// legitimately change the later clustering
+    fn reads_are_pure(&self) -> bool {
+        true
+    }
+    /// relative cost of one operation + read (1 = a handful of words); scales the depth of the read-placement enumeration
+    fn cost(&self) -> usize {
+        1
+    }
 }
 
 fn h64(xs: impl Iterator<Item = u64>) -> u64 {
@@ -394,6 +403,9 @@ impl SHll {
     }
 }
 impl Sut for SHll {
+    fn cost(&self) -> usize {
+        1 + (1usize << self.b) / 256
+    }
     fn reclone_via_clone_from(&mut self) {
         let mut tmp = checks::hll::fresh(if self.b < 18 { self.b + 1 } else { 4 });
         tmp.add_hashed(7);
@@ -456,6 +468,9 @@ impl STd {
     }
 }
 impl Sut for STd {
+    fn reads_are_pure(&self) -> bool {
+        false
+    }
     fn reclone_via_clone_from(&mut self) {
         let mut tmp = Dg::new(self.kind, self.delta * 2.0 + 1.0, self.backlog + 2);
         tmp.insert(5.0);
@@ -676,6 +691,7 @@ struct Stats {
     lockstep_steps: u64,
     clone_checks: u64,
     raw_leads: u64,
+    read_placements: u64,
     viols: Vec<(String, String, serde_json::Value)>,
 }
 
@@ -894,11 +910,83 @@ fn pre_tree<S: Sut>(fresh: &S, s: &S, added: Option<bool>, depth: usize, hist: &
     }
 }
 
+/// Reads are pure, wherever they are placed: every sequence over the operations and clear() up to a depth is run on an instance
+/// that is never read before the end, and again with ONE full read (obs) placed after each of its steps; the final observations
+/// must be identical. The trees above read every node, which refreshes anything a read caches; a value cached by a read and
+/// found again later (a memo keyed by something clear() rewinds) only shows when no other read lies in between.
+static RP_BUDGET: std::sync::atomic::AtomicUsize = std::sync::atomic::AtomicUsize::new(120_000);
+fn read_placement<S: Sut>(fresh: &S, st: &mut Stats) {
+    if !fresh.reads_are_pure() {
+        return;
+    }
+    let n = fresh.n_ops() + 1; // the last letter is clear()
+    let c = fresh.cost();
+    let budget = RP_BUDGET.load(std::sync::atomic::Ordering::Relaxed);
+    let depth = (3..=7).rev().find(|&d| n.pow(d as u32).saturating_mul(c) <= budget).unwrap_or(3);
+    let step = |s: &mut S, op: usize| -> bool {
+        if op + 1 == n {
+            s.clear();
+            true
+        } else {
+            chooser::begin_with(&[], Tail::Zero, 0);
+            let ok = apply_caught(s, op).is_ok();
+            chooser::end();
+            ok
+        }
+    };
+    let name_of = |op: usize| if op + 1 == n { "clear()".to_string() } else { fresh.op_name(op) };
+    for len in 2..=depth {
+        let mut seq = vec![0usize; len];
+        'seqs: loop {
+            // at least one clear or the sequence is covered by ... nothing: keep all of them (cheap)
+            let mut plain = fresh.clone();
+            let mut ok = true;
+            for &op in &seq {
+                ok &= step(&mut plain, op);
+                if !ok { break; }
+            }
+            if ok {
+                let want = plain.obs();
+                for r in 0..len - 1 {
+                    let mut s = fresh.clone();
+                    let mut ok2 = true;
+                    for (i, &op) in seq.iter().enumerate() {
+                        ok2 &= step(&mut s, op);
+                        if !ok2 { break; }
+                        if i == r {
+                            let _ = s.obs();
+                        }
+                    }
+                    st.read_placements += 1;
+                    if !ok2 || s.obs() != want {
+                        let sig = format!("{} read changes later answers", fresh.name().split(' ').next().unwrap());
+                        if !st.viols.iter().any(|v| v.0 == sig) {
+                            st.viols.push((sig, format!("{}: a read (all getters and queries) after step {} of {:?} changes the answers at the end of the sequence{}", fresh.name(), r + 1, seq.iter().map(|&o| name_of(o)).collect::<Vec<_>>(), if ok2 { "" } else { " (an operation panics)" }),
+                                json!({"structure": fresh.name(), "sequence": seq.iter().map(|&o| name_of(o)).collect::<Vec<_>>(), "read_after_step": r + 1, "compared": "final observations with and without that read"})));
+                        }
+                        return;
+                    }
+                }
+            }
+            // next sequence
+            let mut i = len;
+            loop {
+                if i == 0 { break 'seqs; }
+                i -= 1;
+                seq[i] += 1;
+                if seq[i] < n { break; }
+                seq[i] = 0;
+            }
+        }
+    }
+}
+
 fn run_sut<S: Sut>(fresh: S, pre_depth: usize, cont_depth: usize) -> (String, Stats) {
     let mut st = Stats::default();
     let mut hist = vec![];
     let mut trail = vec![];
     pre_tree(&fresh, &fresh, Some(false), pre_depth, &mut hist, &mut trail, cont_depth, &mut st);
+    read_placement(&fresh, &mut st);
     // long deterministic pre-histories
     for variant in 0..3 {
         let seq = det_seq(fresh.n_ops(), 1000, variant);
@@ -960,6 +1048,7 @@ fn main() {
     let args = parse_args();
     let mut run = Runner::new("C19", &args.tier, "model_checking");
     let thorough = run.thorough();
+    RP_BUDGET.store(if thorough { 3_000_000 } else { 120_000 }, std::sync::atomic::Ordering::Relaxed);
     let (pd, cd) = if thorough { (4, 4) } else { (3, 3) };
     let mut jobs: Vec<Job> = vec![Job::Bloom(3, 2), Job::Bloom(4, 1), Job::Bloom(4, 2), Job::Cuckoo(vec![1, 0, 1], Some(2)), Job::Cuckoo(vec![0, 0, 0], Some(2)), Job::Cuckoo(vec![1, 1, 1], None), Job::Qf(2, 1), Job::Qf(2, 2),
         Job::Cms(2, 2, "u8"), Job::Cms(3, 2, "u64"), Job::Cms(2, 3, "usize"), Job::Hll(4), Job::Hll(9), Job::Hll(18), Job::Res(1), Job::Res(2), Job::Res(3)];
@@ -1002,7 +1091,7 @@ fn main() {
         steps += st.lockstep_steps;
         clones += st.clone_checks;
         leads += st.raw_leads;
-        run.ev.push("structures", json!({"structure": name, "pre_histories": st.pre_histories, "lockstep_comparisons": st.lockstep_steps, "clone_checks": st.clone_checks, "internal_state_differs_after_clear(lead only)": st.raw_leads}));
+        run.ev.push("structures", json!({"structure": name, "pre_histories": st.pre_histories, "lockstep_comparisons": st.lockstep_steps, "clone_checks": st.clone_checks, "read_placement_runs": st.read_placements, "internal_state_differs_after_clear(lead only)": st.raw_leads}));
         for (sig, msg, replay) in st.viols {
             run.violation(Viol { property: "C19".into(), signature: sig, message: msg, replay });
         }
